@@ -180,6 +180,7 @@ class World(object):
         self.in_seq = 0
         self.ids_seen = set()
         self.skipped = 0
+        self.t_nom = 0.0               # the time the history has asked for (advances and timer instants), without lateness
         self.late = self.LATE          # how late the reactor runs the next timer instants (op 'late')
         self.max_late = self.LATE
         self.budget_hit = False
@@ -896,6 +897,7 @@ class World(object):
         # LoopingCall's "time until the next interval" can round to a few ulps and fire twice
         if t + self.late > clock.rightNow:
             clock.rightNow = t + self.late
+        self.t_nom = max(self.t_nom, t)
         clock.advance(0)
         return True
 
@@ -908,7 +910,9 @@ class World(object):
 
     def op_advance(self, code):
         dt = ADVANCE_TABLE[code % len(ADVANCE_TABLE)] if isinstance(code, int) else float(code)
-        target = self.now() + dt
+        # relative to the time asked for so far, not to the clock: the clock is ahead of it by the lateness
+        # of the last timer pass, and whether a history fired a timer earlier must not shift later targets
+        target = self.t_nom + dt
         n = 0
         while self._fire_instant(target):
             n += 1
@@ -918,6 +922,7 @@ class World(object):
         if REACTOR.clock.rightNow < target:
             REACTOR.clock.rightNow = target
         REACTOR.clock.advance(0)
+        self.t_nom = max(self.t_nom, target)
 
     def op_fire(self, n=1):
         for _ in range(max(1, n)):
@@ -988,7 +993,7 @@ class World(object):
     def op_idle(self, seconds=5000.0):
         """long stretch of virtual time; a transport the client closed or aborted reports the loss
         (as every real transport eventually does)"""
-        target = self.now() + float(seconds)
+        target = self.t_nom + float(seconds)
         n = 0
         while True:
             for conn in list(self.cur.values()):
@@ -1002,6 +1007,7 @@ class World(object):
                 break
         if REACTOR.clock.rightNow < target:
             REACTOR.clock.rightNow = target
+        self.t_nom = max(self.t_nom, target)
 
     def op_setid(self, value):
         """C17: place the factory's packet-id counter (guarded: skipped when the attribute is gone)"""
